@@ -105,7 +105,11 @@ def build(case, tmpdir=None):
     for it in case["items"]:
         if it["t"] == "h":
             hlines.append(cur_line())
-            out.append("#" * it["level"] + f" H{hi}\n\nP{hi}")
+            if it.get("setext") and it["level"] <= 2:
+                # the other spelling of a level-1 / level-2 heading: the text underlined with '=' / '-'
+                out.append(f"H{hi}\n" + ("===" if it["level"] == 1 else "---") + f"\n\nP{hi}")
+            else:
+                out.append("#" * it["level"] + f" H{hi}\n\nP{hi}")
             levels.append(it["level"])
             hi += 1
         elif it["t"] == "fill":
@@ -170,6 +174,18 @@ def build(case, tmpdir=None):
                         body.append("- lead\n\n  " + "#" * NL + f" N{ni}\n")
                         nested.append((f"N{ni}", NL + it["offset"]))
                         ni += 1
+                    elif kind in ("inc", "inc1"):
+                        # an include inside the included file, without the option (its headings are not shifted at all:
+                        # the offset is per include, not inherited) or with its own offset of 1
+                        io = 1 if kind == "inc1" else 0
+                        iname = f"inner{inc}_{k}.md"
+                        if tmpdir is not None:
+                            with open(os.path.join(tmpdir, iname), "w") as fh:
+                                fh.write("#" * NL + f" H{hi}\n\nP{hi}\n")
+                        body.append("```{include} " + iname + "\n" + (":heading-offset: 1\n" if io else "") + "```\n")
+                        levels.append(NL + io)
+                        hlines.append(None)
+                        hi += 1
                     elif kind == "noteh":
                         body.append("```{note}\nlead\n\n" + "#" * NL + f" N{ni}\n```\n")
                         nested.append((f"N{ni}", NL + it["offset"]))
@@ -327,6 +343,21 @@ def sub_enum(acc, shard, nshards, tier, seed):
                     acc.known_hits[v["signature"]] += 1
                 elif len(acc.violations) < 8 and all(v["signature"] != w["signature"] for w in acc.violations):
                     acc.violations.append(v)
+    # both spellings of level-1 / level-2 headings: every sequence of <= 4 headings over {ATX 1-3, setext 1-2}
+    kinds = [(1, False), (2, False), (3, False), (1, True), (2, True)]
+    for n in range(1, 5):
+        for seq in itertools.product(kinds, repeat=n):
+            if not any(sx for _l, sx in seq):
+                continue
+            i += 1
+            if i % nshards != shard:
+                continue
+            case = {"items": [{"t": "h", "level": L, "setext": sx} for L, sx in seq]}
+            for v in check_case(acc, case):
+                if kn.matches(v):
+                    acc.known_hits[v["signature"]] += 1
+                elif len(acc.violations) < 8 and all(v["signature"] != w["signature"] for w in acc.violations):
+                    acc.violations.append(v)
     # a front-matter title as the first H1 (title_to_header, selected in the front matter or globally) x every sequence
     for how in ("front", "config"):
         for n in range(0, 4):
@@ -357,7 +388,7 @@ def sub_enum(acc, shard, nshards, tier, seed):
                             acc.violations.append(v)
     # heading-offset includes: every offset x every in-between construct x (level, next level)
     for off in range(0, 4):
-        for kind in ("note", "role", "div", "quoteh", "listh", "noteh"):
+        for kind in ("note", "role", "div", "quoteh", "listh", "noteh", "inc", "inc1"):
             for L1 in (1, 2):
                 for L2 in (1, 2, 3):
                     for NL in (1, 3):
@@ -382,10 +413,11 @@ item_st = st.one_of(
     st.builds(lambda L: {"t": "h", "level": L}, st.integers(1, 6)),
     st.builds(lambda L: {"t": "h", "level": L}, st.integers(1, 6)),
     st.builds(lambda L: {"t": "h", "level": L}, st.integers(1, 4)),
+    st.builds(lambda L: {"t": "h", "level": L, "setext": True}, st.integers(1, 2)),
     st.builds(lambda k: {"t": "fill", "kind": k}, st.sampled_from(sorted(FILLERS))),
     st.builds(lambda L, w: {"t": "nested", "level": L, "wrap": w}, st.integers(1, 6), st.sampled_from(ALL_WRAPS)),
 )
-between_st = st.one_of(st.none(), st.tuples(st.sampled_from(["note", "role", "div", "quoteh", "listh", "noteh"]), st.integers(1, 4)))
+between_st = st.one_of(st.none(), st.tuples(st.sampled_from(["note", "role", "div", "quoteh", "listh", "noteh", "inc", "inc1"]), st.integers(1, 4)))
 include_st = st.builds(lambda o, ls, e, b: {"t": "include", "offset": o, "levels": ls, "explicit0": e, "between": b},
                        st.integers(0, 3), st.lists(st.integers(1, 6), min_size=1, max_size=4), st.booleans(),
                        st.lists(between_st, max_size=4))
